@@ -47,8 +47,9 @@ class _FP(html.parser.HTMLParser):
         if re.fullmatch(r"h[1-6]", tag):
             tag = "h"
         if tag in ("em", "strong", "br"):
-            if tag == "br":
-                self.text.append(" ")
+            if tag == "br":          # a hard line break is an inline element of its own
+                self.flush()
+                self.out.append(("br",))
             return
         if tag == "code" and self.in_pre:
             return
@@ -311,6 +312,12 @@ def run(ctx):
                 body = ml.replace("{p}", pad)
                 nested.append(f"{m} a {body} b\n{qp}\n{pad}c\n{m}{wide}d\n{qp}\n{pad}{wide[:-1]}f\n{m} g\n")
                 nested.append(f"{m} a {body} b\n{m}{wide}d\n{m} g\n")
+    # multi-line setext headings and paragraphs whose lines end in 1-4 spaces (hard breaks that a white-space fix must keep)
+    for k in (1, 2, 3, 4):
+        for under in ("=====", "-----"):
+            nested.append(f"Title first line{' ' * k}\nsecond line\n{under}\n")
+            nested.append(f"> Title{' ' * k}\n> second{' ' * k}\n> third\n> {under}\n")
+        nested.append(f"para one{' ' * k}\ntwo{' ' * k}\nthree\n\n- item{' ' * k}\n  more\n")
     nested = [d for d in gen.uniq(nested)]
     base = list(gen.uniq(base + nested))
     extra = gen.sample(list(gen.d_line(pr_lines, 5, final_newline=(True,))), 4000, 31)[:4000 if ctx.tier == "thorough" else 700]
@@ -323,7 +330,7 @@ def run(ctx):
     if ctx.tier == "quick":
         rnd = random.Random(ctx.seed)
         space = [(d, configs[0]) for d in docs] + [(d, rnd.choice(configs[1:])) for d in rnd.sample(base, min(len(base), 1500))]
-        space += [(d, c) for d in nested for c in configs[1:] if c[0] in ("only:md005", "only:md006", "only:md007", "only:md030", "only:md027")]
+        space += [(d, c) for d in nested for c in configs[1:] if c[0] in ("only:md005", "only:md006", "only:md007", "only:md030", "only:md027", "only:md009")]
         space = list({(d, c[0]): (d, c) for d, c in space}.values())
     else:
         space = [(d, configs[0]) for d in docs] + [(d, c) for d in base for c in configs[1:]]
@@ -342,7 +349,7 @@ def run(ctx):
     ctx.unit("fix-runs", documents=len(docs), configurations=len(configs), runs=len(space), runs_that_changed_the_file=len(changed))
     ctx.trusted += [
         "correspondence: Model/Replace.v replace_tokens / shift_pragmas (vm_compute) vs FileScanHelper.__apply_replacement_fix called directly on real token lists with random ranges, replacement tokens and pragma dictionaries",
-        "independent renderer: the vendored markdown-it-py (commonmark preset); the fingerprint drops what the fixing rules are documented to normalise (heading level, list numbers, tight/loose, emphasis markers, white space, code-block language) and keeps block order and nesting, text words, code lines, link targets, raw HTML and comments (pragma lines included)",
+        "independent renderer: the vendored markdown-it-py (commonmark preset); the fingerprint drops what the fixing rules are documented to normalise (heading level, list numbers, tight/loose, emphasis markers, white space, code-block language) and keeps block order and nesting, text words, code lines, link targets, raw HTML, hard line breaks and comments (pragma lines included)",
         "modelled, not verified: the token edits each fixing rule requests and the Markdown regenerator (C02) - decided by the fingerprint enumeration only",
     ]
     return ctx.finish(
